@@ -126,6 +126,10 @@ class BusModel:
         self.M = M
         base = [("slave", o, s, c) for o in M["ORIG"] for s in M["SIZE"] for c in (True, False)]
         base += [("io", o, s) for o, s in M["IO"]]
+        # fixed regions in the gap between the real end of a non power-of-two IO region and the end of its rounded-up window
+        # (uncached there = outside every IO region), and just below that end
+        go, gs = M["IO"][1]
+        base += [("slave", go + gs, M["SIZE"][1], c) for c in (True, False)] + [("slave", go + gs - M["SIZE"][1], M["SIZE"][1], False)]
         if menu == "mid":       # a sub-menu of the linker regions of "full" (3 origins x 3 sizes; measured: all 49 cost 21 M histories at depth 4)
             base += [("linker", o, s, True) for o in (M["ORIG"][1], M["ORIG"][2], M["ORIG"][4]) for s in (M["SIZE"][2], M["SIZE"][3], M["SIZE"][4])]
         if menu == "full":
@@ -463,7 +467,9 @@ class RealBusModel(BusModel):
         elif isinstance(ic, wishbone.Crossbar):
             decs = [m for _, m in ic._submodules if isinstance(m, wishbone.Decoder)]
             if len(decs) != len(h.masters):
-                raise MachineryError("crossbar: one Decoder per master expected")
+                # not the structure this harness reads back (one Decoder per master): decide by behaviour on the real module
+                self.cover["crossbar_probed"] += 1
+                return self.check_probe(h, ic)
         else:
             raise MachineryError(f"unexpected interconnect {type(ic)}")
         names = list(h.slaves.keys())
@@ -486,6 +492,54 @@ class RealBusModel(BusModel):
 
 
     _p2p_cache = {}
+
+    def check_probe(self, h, ic):
+        """Behavioural routing probe of a built interconnect whose structure is not the expected one: every master in turn presents
+        a read at the first / last word of every decoded window, at the words just outside them and at the last word of the
+        address space, on the stock simulator; in the second cycle of the request exactly the slave whose window contains the
+        address may see cyc & stb (none for an address in no window)."""
+        from litex.gen.sim import run_simulation
+        B = self.dw // 8
+        masters = list(h.masters.items())
+        slaves = list(h.slaves.items())
+        nwords = 1 << len(masters[0][1].adr)
+        wins = [(h.regions[n].origin // B, (h.regions[n].origin + h.regions[n].size_pow2) // B) for n, _ in slaves]
+        cand = {nwords - 1}
+        for lo, hi in wins:
+            cand |= {lo - 1, lo, hi - 1, hi}
+        probes = sorted(a for a in cand if 0 <= a < nwords)
+        bad = []
+
+        def gen():
+            for mi, (mn, m) in enumerate(masters):
+                for a in probes:
+                    yield m.adr.eq(a)
+                    yield m.we.eq(0)
+                    yield m.cyc.eq(1)
+                    yield m.stb.eq(1)
+                    yield m.sel.eq(2**len(m.sel) - 1)
+                    yield
+                    yield
+                    yield
+                    want = [j for j, (lo, hi) in enumerate(wins) if lo <= a < hi]
+                    got = []
+                    for j, (sn, sl) in enumerate(slaves):
+                        if (yield sl.cyc) and (yield sl.stb):
+                            got.append(j)
+                    if got != want[:1] and len(bad) < 4:
+                        bad.append((mn, a, [slaves[j][0] for j in got], [slaves[j][0] for j in want]))
+                    yield m.cyc.eq(0)
+                    yield m.stb.eq(0)
+                    yield
+                    yield
+        run_simulation(ic, gen())
+        if not bad:
+            return []
+        mn, a, got, want = bad[0]
+        return [dict(property="C06", rule="route.probe",
+                     msg=f"built {type(ic).__name__}: a cycle of master {mn!r} to word address {a:#x} (byte {a*B:#x}) is presented to slave(s) {got}, "
+                         f"the decoded windows select {want or 'no slave'}",
+                     detail=dict(master=mn, adr=a, presented=got, expected=want, more=[list(map(str, b)) for b in bad[1:]]))]
 
     def check_p2p(self, h, ic):
         """do_finalize chose InterconnectPointToPoint (no Decoder, no Timeout): bus cycles to word addresses outside the only
